@@ -746,3 +746,30 @@ func useInTest() { use() }
 		Unrelated(),
 	}}
 }
+
+// RaceCorpus: n independent packages (no imports between them, so their actions all run at once)
+// that each exercise every annotation reader and checker on several types with documented fields,
+// plus one consumer per pair. It exists for the free-running -race complement of C11: process-wide
+// state that is touched without synchronisation shows up as a reported data race when many
+// packages are analysed concurrently.
+func RaceCorpus(n int) *prog.Program {
+	p := &prog.Program{}
+	for i := 0; i < n; i++ {
+		name := fmt.Sprintf("rc%02d", i)
+		var b strings.Builder
+		fmt.Fprintf(&b, "package %s\n\ntype Iface interface{ Do(); Undo(x int) string }\n\n", name)
+		for t := 0; t < 5; t++ {
+			fmt.Fprintf(&b, "// S%d is immutable apart from its counters.\n// @immutable\n// @constructor New%d, Make%d\n// @implements Iface\ntype S%d struct {\n\t// hits is a cache counter.\n\t// @mutable\n\thits int\n\t// misses too.\n\t// @mutable\n\tmisses, evictions int\n\t// F is plain prose mentioning @mutable mid-line.\n\tF int\n\tXs []int\n}\n\n", t, t, t, t)
+			fmt.Fprintf(&b, "func New%d() *S%d { s := &S%d{}; s.F = 1; return s }\n\n", t, t, t)
+			fmt.Fprintf(&b, "// Probe%d is test-only and restricted.\n// @testonly\n// @packageonly nowhere, %s\nfunc Probe%d() int { return %d }\n\n", t, name, t, t)
+			fmt.Fprintf(&b, "func use%d(s *S%d) {\n\ts.hits++\n\ts.misses += 1\n\ts.evictions = 2\n\ts.F = 2\n\ts.Xs[0] = 1\n\t_ = S%d{}\n\t_ = Probe%d()\n}\n\n", t, t, t, t)
+		}
+		p.Pkgs = append(p.Pkgs, prog.Pkg{Path: "ex.com/m/" + name, Files: []prog.File{{Name: name + ".go", Src: b.String()}}})
+	}
+	for i := 0; i+1 < n; i += 2 {
+		a, c := fmt.Sprintf("rc%02d", i), fmt.Sprintf("rc%02d", i+1)
+		src := fmt.Sprintf("package cons%02d\n\nimport (\n\t\"ex.com/m/%s\"\n\t\"ex.com/m/%s\"\n)\n\nfunc use(x *%s.S0, y *%s.S1) {\n\tx.F = 1\n\ty.F++\n\t_ = %s.S2{}\n\t_ = %s.Probe3()\n}\n", i, a, c, a, c, a, c)
+		p.Pkgs = append(p.Pkgs, prog.Pkg{Path: fmt.Sprintf("ex.com/m/cons%02d", i), Files: []prog.File{{Name: "c.go", Src: src}}})
+	}
+	return p
+}
